@@ -278,6 +278,53 @@ def replay_concrete(mi, si, cnames, cparts, attr_name='uses'):
     return got is not exp, detail
 
 
+def import_scenario():
+    """concrete supplement, the import-aware wrappers (FQNImportURI, FQNGlobalRepo): a qualified name that
+    has a chain from the referencing object's own scopes resolves there, even if an imported file has the
+    same qualified name from its root; names only an imported file has resolve into that file"""
+    import os
+    import shutil
+    import tempfile
+    from textx import metamodel_from_str
+    import textx.scoping.providers as P
+    g = GRAMMAR.replace("Model: packages+=Package;", "Model: imports*=Import packages+=Package;\n"
+                        "Import: 'import' importURI=STRING;")
+    files = {'main.m': 'import "lib.m" package a { package b { class X; } class y uses b.X; } '
+                       'package p { class Q; } package r { class z uses p.Q; class w uses only.L; class v uses a.b.X; }',
+             'lib.m': 'package b { class X; } package p { class Q; } package only { class L; } package a { package b { class X; } }'}
+    want = {'y': ('main.m', 'a.b.X'), 'z': ('main.m', 'p.Q'), 'w': ('lib.m', 'only.L'), 'v': ('main.m', 'a.b.X')}
+    problems = []
+    tmp = tempfile.mkdtemp(prefix='c10i_')
+    try:
+        for fn, t in files.items():
+            with open(os.path.join(tmp, fn), 'w') as f:
+                f.write(t)
+        for prov in ('FQNImportURI', 'FQNGlobalRepo'):
+            mm = metamodel_from_str(g)
+            mm.register_scope_providers({'*.*': P.FQNImportURI() if prov == 'FQNImportURI'
+                                         else P.FQNGlobalRepo(os.path.join(tmp, 'lib.m'))})
+            try:
+                m = mm.model_from_file(os.path.join(tmp, 'main.m'))
+            except Exception as e:  # noqa
+                problems.append('%s: load fails: %s: %s' % (prov, type(e).__name__, str(e).replace(tmp, '')[:80]))
+                continue
+            from textx import get_children_of_type, get_model
+            for c in get_children_of_type('Class', m):
+                if c.name in want:
+                    t = c.uses
+                    q, o = [], t
+                    while hasattr(o, 'name'):
+                        q.insert(0, o.name)
+                        o = getattr(o, 'parent', None)
+                    got = (os.path.basename(get_model(t)._tx_filename), '.'.join(q))
+                    if got != want[c.name]:
+                        problems.append('%s: class %s uses %s resolves to %s of %s, expected %s of %s' % (
+                            prov, c.name, want[c.name][1], got[1], got[0], want[c.name][1], want[c.name][0]))
+        return problems
+    finally:
+        shutil.rmtree(tmp, ignore_errors=True)
+
+
 def main():
     import textx.scoping.providers as P
     import textx.model as M
@@ -321,6 +368,9 @@ def main():
         for v in r['violations']:
             chk.violation('FQN result differs from the qualified-name semantics: %s' % v['detail'], v)
         chk.sample({'model': MODELS[it[0]], 'parts': it[1], 'paths': r['paths'], 'discharged': r['discharged']})
+    for pr in import_scenario()[:3]:
+        chk.violation(pr, {'import_scenario': True})
+    chk.cov['bounds']['import_scenario'] = 'FQNImportURI / FQNGlobalRepo over two files with clashing qualified names (concrete)'
     chk.cov['paths_explored'] = paths
     chk.cov['distinct_nontrivial'] = paths
     chk.cov['obligations'] = paths
@@ -333,4 +383,7 @@ def main():
 
 
 def replay(data):
+    if data.get('import_scenario'):
+        pr = import_scenario()
+        return bool(pr), pr[:3]
     return replay_concrete(data['model'], data['start'], data['names'], data['ref'], data.get('attr', 'uses'))
